@@ -214,11 +214,17 @@ func c04RoundTrip(g *Gen) []Op {
 
 func TestC04(t *testing.T) {
 	runHistories(t, historyCfg{prop: "C04", weights: c04Weights, minSteps: 12, maxSteps: 70, shadowOps: c04RoundTrip, shadowP: 3, nontrivial: func(rec *CallRecord, g *Gen) (string, bool) {
+		callerKind := "user"
+		if vmcommon.IsSmartContractAddress(rec.Call.Caller) {
+			callerKind = "contract"
+		} else if isESDTSC(rec.Call.Caller) {
+			callerKind = "system"
+		}
 		if sig, ok := mustFailFor(rec, "C04"); ok {
-			return sprintf("attempt-while-flagged|%s|%s|%s|refund=%v", rec.Call.Fn, sig, outcomeOf(rec), rec.Call.RetErr), true
+			return sprintf("attempt-while-flagged|%s|%s|%s|refund=%v|side=%s|type=%d|caller=%s|nargs=%d|delivery=%v|%s", rec.Call.Fn, sig, outcomeOf(rec), rec.Call.RetErr, rec.V.Side, rec.Call.CallType, callerKind, len(rec.Call.Args), rec.Call.MsgID != 0, shapeKey(g)), true
 		}
 		if rec.PreFrozenOrPaused {
-			return sprintf("exempt-change|%s|%s|refund=%v", rec.Call.Fn, rec.V.Side, rec.Call.RetErr), true
+			return sprintf("exempt-change|%s|%s|refund=%v|caller=%s|nargs=%d", rec.Call.Fn, rec.V.Side, rec.Call.RetErr, callerKind, len(rec.Call.Args)), true
 		}
 		return "", false
 	}})
@@ -539,7 +545,7 @@ func TestC09(t *testing.T) {
 			return "", false
 		}
 		if sig, ok := mustFailFor(rec, "C09"); ok {
-			return sprintf("must-reject|%s|%s|%s|type=%d", rec.Call.Fn, sig, outcomeOf(rec), rec.Call.CallType), true
+			return sprintf("must-reject|%s|%s|%s|type=%d|side=%s|nargs=%d|caller-contract=%v|%s", rec.Call.Fn, sig, outcomeOf(rec), rec.Call.CallType, rec.V.Side, len(rec.Call.Args), vmcommon.IsSmartContractAddress(rec.Call.Caller), shapeKey(g)), true
 		}
 		if rec.NonPayableDest {
 			return sprintf("exempt-credit|%s|%s|type=%d|system=%v|refund=%v|nargs=%d", rec.Call.Fn, rec.V.Side, rec.Call.CallType, isESDTSC(rec.Call.Caller), rec.Call.RetErr, len(rec.Call.Args)), true
